@@ -99,6 +99,21 @@ EXTRA2 = {
  "C17": " Runs and X||X also through the classic lzma.Writer with capacities off the 2^n grid.",
 }
 
+EXTRA3 = {
+ "C01": " Fixed cases: several stored chunks in a row between LZMA chunks; X||X at capacities next to the representable dictionary sizes.",
+ "C05": " The shortest .lzma streams of every termination mode are among the streams.",
+ "C06": " Run-rich data over many revolutions of a small ring with the hash-table matcher.",
+ "C07": " Generated end markers carry any length field 2..273.",
+ "C09": " Third fault shape: the sink accepts all bytes and returns the error with the full count.",
+ "C10": " gxz is also started by its other names (xzcat, lzcat, unxz, unlzma, lzma ...); archive-like input with several stored chunks in a row.",
+ "C11": " Seeds with an end marker inside an LZMA2 chunk; every seed is also fed unmodified.",
+ "C12": " Chain members realised from reset-kind chunk sequences behind uncompressed chunks.",
+ "C13": " Streams with an uncompressed chunk longer than the reader's dictionary between compressed chunks.",
+ "C14": " Concurrent readers of generator-made streams (state resets, property changes) with shared properties.",
+ "C17": " X||X of 2 MiB through the classic writer with the binary tree.",
+ "C18": " Look-ahead buffer larger than the dictionary, judged by the strict reference decoder.",
+}
+
 def main():
     props = [json.loads(l) for l in open(os.path.join(V, "properties.jsonl"))]
     checks = []
@@ -114,7 +129,7 @@ def main():
                 "evidence_file": f"/verif/evidence/{i}.json",
                 "replay_cmd_template": f"./check {i} --replay {{path}}",
                 "engine": "vcheck",
-                "level_claimed": {"category": cat, "text": text + EXTRA.get(i, "") + EXTRA2.get(i, ""), "design_ref": "DESIGN.md section " + ref},
+                "level_claimed": {"category": cat, "text": text + EXTRA.get(i, "") + EXTRA2.get(i, "") + EXTRA3.get(i, ""), "design_ref": "DESIGN.md section " + ref},
                 "level_note": note,
                 "technique": tech,
             })
